@@ -1,5 +1,3 @@
-\* exhaustive: all programs of <= 3 instructions over the full instruction set, all allocations
-\* of 3 virtual registers to 2 physical registers accepted by the spec's rule
 CONSTANTS
   MaxLen = 3
   NV = 3
@@ -7,7 +5,8 @@ CONSTANTS
   Kinds = {"const", "mov", "inc", "add", "out", "jnz", "jmp"}
   Rule = "spec"
   Filter = TRUE
-  RandLen = 0
+  RandLens = {}
+  RandKinds = {}
   RandCount = 0
 SPECIFICATION Spec
 INVARIANT AllocatedRunAgrees
